@@ -263,6 +263,7 @@ def stoppedWaitFor : Nat → State → Nat → Nat → Bool → State
         else
           -- StartTiming(): Stop(); state = Timing; AddTiming(this, 0)
           let s := stop fuel s t
+          if !s.alive t then s else       -- deleted by its own Stop() (wait cycle): StartTiming returns
           addTiming (s.setTh t (fun th => { th with ts := .timing })) t 0
       else s
 
@@ -317,7 +318,8 @@ def scriptExecuteInternal : Nat → State → Nat → State
     let savedCur := s.cur
     let s := { s with cur := some t }     -- (m_PreviousThread is written here too; nothing modelled reads it)
     let s := stop fuel s t
-    let s := execVM fuel s t
+    -- deleted by its own Stop() (wait cycle between threads): nothing to execute
+    let s := if s.alive t then execVM fuel s t else s
     -- restore (both are SafePtr: a thread destroyed meanwhile reads null)
     let s := { s with cur := savedCur.bind (fun c => if s.alive c then some c else none) }
     executeRunning fuel s
@@ -469,6 +471,7 @@ def exec : Nat → State → Nat → Th → Instr → State
       if th.parent == 0 || !s.alive th.parent || !s.hasVM th.parent then s else   -- NIL / NULL listener: script error
       let p := th.parent
       let s := stop fuel s p
+      if !s.alive p then s else         -- `p` was deleted by its own Stop() (wait cycle): Wait returns
       let s := addTiming (s.setTh p (fun th => { th with ts := .timing })) p ms
       vmSuspend s p
     | .waittillParent names =>
